@@ -52,6 +52,7 @@ fn main() {
         "C01" => props::c01::run(&ctx),
         "C03" => props::c03::run(&ctx),
         "C07" => props::c07::run(&ctx),
+        "C08" => props::c08::run(&ctx),
         "C10" => props::c10::run(&ctx),
         "C11" => props::c11::run(&ctx),
         "C14" => props::c14::run(&ctx),
